@@ -151,6 +151,10 @@ def part_ops(ctx):
     pairs = [(a, b) for a in vals for b in vals]
     if ctx.quick:
         pairs = rng.sample(pairs, 700) + [(a, b) for a in vals[-8:] for b in vals[-8:]]
+    # tiny but NONZERO scalars are nonzero: adding them to an array is an error like adding any other number (no "close enough to zero" rule)
+    tiny = [1e-16, -5e-16, 2.0 ** -55, complex(0, 1e-17), 1e-300]
+    some_arrays = [v for v in vals if is_arr(v) and v.size > 1][:6] + vals[-3:]
+    pairs = pairs + [(t, arr) for t in tiny for arr in some_arrays] + [(arr, t) for t in tiny for arr in some_arrays]
     for a, b in pairs:
         if not is_arr(a) and not is_arr(b):
             continue
@@ -209,11 +213,13 @@ def part_formulas(ctx):
     from mitxgraders.helpers.calc.mathfuncs import DEFAULT_FUNCTIONS
     rng = ctx.rng
     asks, meta = [], []
-    lits = ['norm(v)', 'det(A)', 'trace(A)', 'sin(1)', 'abs(v)', 'norm([3,4])', '[1,2]', '[3,-1]', '[1,2,3]', '[[1,2],[3,4]]', '[[2,0],[0,4]]', '[[1,2],[2,4]]', '[[1,2,3],[4,5,6]]', '[[1],[2]]', '2', '0', 'A', 'v', '[i,1]', '[[1,i],[0,1]]', 'c', 'k', 'z', 'c', 'k']
+    lits = ['norm(v)', 'det(A)', 'trace(A)', 'sin(1)', 'abs(v)', 'norm([3,4])', '[1,2]', '[3,-1]', '[1,2,3]', '[[1,2],[3,4]]', '[[2,0],[0,4]]', '[[1,2],[2,4]]', '[[1,2,3],[4,5,6]]', '[[1],[2]]', '2', '0', 'A', 'v', '[i,1]', '[[1,i],[0,1]]', 'c', 'k', 'z', 'c', 'k', 'c32', 'k32', 'z64', 'k16']
     import numpy as np
     # c, k, z: numpy scalar values (an author's np.sqrt(2), an entry of an ndarray, a DiscreteSet of numpy numbers): same rules as builtin numbers
     variables = {'A': MathArray([[1.0, 1.0], [0.0, 1.0]]), 'v': MathArray([2.0, -1.0]), 'i': 1j,
-                 'c': np.float64(1.5), 'k': np.array([3, 2])[1], 'z': np.complex128(1 + 2j)}
+                 'c': np.float64(1.5), 'k': np.array([3, 2])[1], 'z': np.complex128(1 + 2j),
+                 # ... of every width, not only the default ones
+                 'c32': np.float32(1.5), 'k32': np.int32(2), 'z64': np.complex64(1 + 2j), 'k16': np.int16(3)}
     from mitxgraders.helpers.calc.mathfuncs import ARRAY_ONLY_FUNCTIONS, merge_dicts
     FUN = merge_dicts(DEFAULT_FUNCTIONS, ARRAY_ONLY_FUNCTIONS)
 
